@@ -12,6 +12,14 @@ CLAIMED = {
   'Lean 4 proof over an executable graph model (relation_paths, taxonomy.py); correspondence on enumerated/random digraphs',
   'Theorems in lean/WnVerif/Props/C13.lean characterise hypernym_paths (all maximal simple chains, any finite digraph, no size bound), min/max depth, common/lowest common hypernyms and shortest_path of the Lean model of wn/taxonomy.py and _Relatable.relation_paths; taxonomy_depth is proved for acyclic graphs only (_partial) with a kernel-checked cyclic counter-example (known finding F14). The model is tied to the code by running model and wn.taxonomy on the same digraphs (all labelled digraphs on <=2 nodes, a sample / all of the 512 on 3 nodes, random graphs up to 8-10 nodes, every node, every ordered pair, simulate_root on/off) and by independent graph-algorithm oracles on the real API.',
   'Trusted: Lean kernel; axioms propext/Classical.choice/Quot.sound only; the correspondence harness; SQLite row order of get_synset_relations and rowid allocation are modelled, not verified.'),
+ 'C14': (
+  'Lean 4 proof over exact rationals (similarity formulas, Real.log for lch) + correspondence of wn.similarity with the model on enumerated/random digraphs and IC weights',
+  'Theorems in Props/C14.lean: path in [0,1], =1 iff distance 0, =0 iff unconnected; wup in (0,1], =1 for identical synsets; self-maximality of path, wup and (over Mathlib Real.log, for every depth D>0) lch; symmetry of the wup formula; part-of-speech compatibility (a ~ s) and the error branches. The model computes path/wup/lch/res/jcn/lin as exact rationals (log arguments); the check requires the library float to equal the correctly rounded rational (path, wup), -math.log(num/den) (lch) or the formula on the model rationals within 1e-9 (res/jcn/lin), for all ordered pairs x simulate_root, and judges the documented formulas, symmetry, ranges and error cases with independent oracles. res deviates from the documented maximum over common subsumers: known finding F19.',
+  'Trusted: Lean kernel, standard axioms; float rounding and math.log are runtime behaviour covered by correspondence only; the LCS selection depends on taxonomy.py (C13 model).'),
+ 'C15': (
+  'Lean 4 proof: worklist walk = reachability without duplicates (any finite graph, cycles included), closed form of every weight, monotonicity, probability range; correspondence of wn.ic.compute with exact rationals',
+  'Theorems in Props/C15.lean: the ancestor walk of compute() terminates for every finite hypernym graph and visits exactly the word synset and its ancestors, each once (C15_touched, via Lemmas/Walk.lean: sound, complete, nodup, fuel bound); C15_once / C15_total give the closed form of every synset weight and part-of-speech total; C15_monotone, C15_le_total, C15_prob_range, C15_prob_monotone derive monotonicity and 0 < p <= 1 (for smoothing > 0 and hypernymy inside one a/s-folded part of speech); unknown words ignored; s counted as a. Tied to wn/ic.py by running compute() on random graphs x corpora x distribute x smoothing and comparing every weight with the exact rational (1e-9 relative), plus an independent Fraction/BFS oracle and a load() file check.',
+  'Trusted: Lean kernel, standard axioms; float summation order, wordnet.synsets(word) lookup (C09) and file parsing of load() are covered by correspondence/oracle only.'),
 }
 
 NOT_YET = {}
